@@ -31,7 +31,10 @@
 //       line_at().data()+size() all lie in [ begin(), end() ].
 //   (b) exact line (begin_of_line, end_of_line, line_at) against an independent line splitter, on
 //       inputs where "line" is unambiguous for the policy and for positions that are not strictly
-//       inside a two-byte line ending.  See oracle_split() for the per-policy decision.
+//       inside a two-byte line ending.  See oracle_split() for the per-policy decision.  For
+//       cr_crlf inputs containing "\r\n" BOTH defensible readings of "line" are accepted (see
+//       oracle_split), so nothing is guessed there; define C19_STRICT_CR_CRLF to accept only the
+//       reading "the LF after a CR belongs to the line ending".
 //   (c) the same position (same data, k, source) must give the same line under eager and lazy
 //       tracking (both claim to be "exactly that line's bytes").
 //   aux byte() of the input must equal position().byte (auxiliary, own signature).
@@ -113,7 +116,7 @@ static char oracle_count_byte( Pol p )
 enum Cls
 {
    CLS_STRICT,  // "line" unambiguous: line-counting byte <=> last byte of a line ending
-   CLS_PAIR,    // cr_crlf input containing "\r\n": line endings well defined by the eol rule, but the LF of the ending is not the counting byte
+   CLS_PAIR,    // cr_crlf input containing "\r\n": two defensible readings of "line" (see oracle_split), both accepted
    CLS_AMBIG    // e.g. crlf policy with a lone '\n': counted as a line but not a line ending -> range checks only
 };
 
@@ -135,12 +138,21 @@ struct LineMap
 //   lf_crlf  "\n" and "\r\n" are line endings, both end in the counting byte '\n'; a '\r' not
 //            followed by '\n' is an ordinary byte                             -> always unambiguous
 //            (positions between the '\r' and '\n' of an ending are skipped, see oracle_line)
-//   cr_crlf  "\r" and "\r\n" are line endings; the '\n' directly after a '\r' BELONGS TO THE LINE
-//            ENDING (the doc: the policy selects "which line endings should be recognised by the
-//            eol and eolf rules, and used for line counting").  Inputs without "\r\n" are strictly
-//            unambiguous.  Inputs with "\r\n" form their own class CLS_PAIR: the line structure is
-//            still uniquely given by the line endings, but the counting byte is the FIRST byte of
-//            the ending, so disagreements there are reported under their own signature.
+//   cr_crlf  "\r" and "\r\n" are line endings.  Inputs without "\r\n" are strictly unambiguous.
+//            Inputs with "\r\n" (class CLS_PAIR) violate "every line ending ends in the counting
+//            byte": the doc says the policy selects "which line endings should be recognised by
+//            the eol and eolf rules, and used for line counting", and the two halves of that
+//            sentence disagree about the '\n' of a "\r\n":
+//              reading E (eol rule):  the '\n' belongs to the line ending, the next line begins
+//                                     after it;
+//              reading C (counting):  the line counter advances on '\r', so the '\n' is column 1
+//                                     of the next line.
+//            Both readings agree on where every line ENDS (at the '\r') and on the begin of every
+//            line that does not follow a "\r\n".  For a line that follows a "\r\n" the oracle
+//            accepts begin_of_line / line_at().data() at either of the two offsets (ExpLine::bol
+//            or ExpLine::bol - 1) and counts which one the library chose; it never guesses.
+//            What is NOT acceptable under any reading is that the same position yields different
+//            lines under eager and lazy tracking: that is check (c), with its own signature.
 static LineMap oracle_split( Pol p, const std::string& d )
 {
    LineMap lm;
@@ -176,7 +188,7 @@ struct ExpLine
    size_t bol = 0;             // offset of the first byte of the line containing the position
    size_t eol = 0;             // offset where the line's terminating line ending starts (or size)
    bool first_line = true;     // no line ending ends at or before the position
-   bool after_pair = false;    // the line ending directly before this line is a two-byte cr_crlf ending
+   bool after_pair = false;    // the line ending directly before this line is a two-byte cr_crlf ending: bol - 1 is accepted too (reading C)
 };
 
 // The line containing position k (0..n): a position exactly at the start of a line ending belongs
@@ -545,6 +557,13 @@ static void check_case( const Unit& u, const char* trk, int src, size_t k, const
    }
    const Ctx c{ u, trk, src, k, o, e, first_line };
    const bool exact = e.valid && ( u.lm.cls == CLS_STRICT || u.lm.cls == CLS_PAIR );
+#ifdef C19_STRICT_CR_CRLF
+   const bool alt = false;
+#else
+   const bool alt = exact && e.after_pair;  // reading C: the line begins at the LF of the preceding CRLF
+#endif
+   auto bol_ok = [ & ]( long v ) { return v == long( e.bol ) || ( alt && v == long( e.bol ) - 1 ); };
+   const std::string bol_exp = offs( long( e.bol ) ) + ( alt ? " (or " + offs( long( e.bol ) - 1 ) + ")" : "" );
    auto inside = [ & ]( long v ) { return v >= 0 && v <= n; };
 
    // ---- at() --------------------------------------------------------------------------------
@@ -555,9 +574,11 @@ static void check_case( const Unit& u, const char* trk, int src, size_t k, const
 
    // ---- begin_of_line() ---------------------------------------------------------------------
    if( !inside( o.bol_off ) )
-      emit( c, "begin_of_line() yields a pointer outside the input data", circumstance( c, true, true, true ), exact ? offs( long( e.bol ) ) : "inside [begin,end]", offs( o.bol_off ) );
-   else if( exact && o.bol_off != long( e.bol ) )
-      emit( c, "begin_of_line() is not the first byte of the line", circumstance( c, true, true, true ), offs( long( e.bol ) ), offs( o.bol_off ) );
+      emit( c, "begin_of_line() yields a pointer outside the input data", circumstance( c, true, true, true ), exact ? bol_exp : "inside [begin,end]", offs( o.bol_off ) );
+   else if( exact && !bol_ok( o.bol_off ) )
+      emit( c, "begin_of_line() is not the first byte of the line", circumstance( c, true, true, true ), bol_exp, offs( o.bol_off ) );
+   else if( exact && e.after_pair && c.u.init.byte == 0 )
+      vf::count( ( std::string( o.bol_off == long( e.bol ) ? "cr_crlf line after CRLF: line begins AFTER the LF (reading E): " : "cr_crlf line after CRLF: line begins AT the LF (reading C): " ) + trk + "/" + SRC_NAME[ src ] ).c_str() );
 
    // ---- end_of_line() -----------------------------------------------------------------------
    if( o.inproc ) {
@@ -580,10 +601,10 @@ static void check_case( const Unit& u, const char* trk, int src, size_t k, const
    if( have_la ) {
       const bool la_inside = inside( o.la_off ) && ( o.la_size <= static_cast< unsigned long >( n ) ) && inside( o.la_off + long( o.la_size ) );
       const std::string obs = "data " + offs( o.la_off ) + " size " + std::to_string( o.la_size );
-      const std::string exp = exact ? "data " + offs( long( e.bol ) ) + " size " + std::to_string( e.eol - e.bol ) : std::string( "a range inside [begin,end]" );
+      const std::string exp = exact ? "data " + bol_exp + " up to " + offs( long( e.eol ) ) : std::string( "a range inside [begin,end]" );
       if( !la_inside )
          emit( c, "line_at() yields a view outside the input data", circumstance( c, true, true, true ), exp, obs );
-      else if( exact && ( o.la_off != long( e.bol ) || o.la_size != static_cast< unsigned long >( e.eol - e.bol ) ) )
+      else if( exact && ( !bol_ok( o.la_off ) || o.la_off + long( o.la_size ) != long( e.eol ) ) )
          emit( c, "line_at() is not exactly the line's bytes", circumstance( c, true, true, true ), exp, obs );
    }
    else if( o.la_tried && o.la_crashed ) {
@@ -711,7 +732,7 @@ static void process_position( const Unit& u, size_t k, int src, std::map< ForkKe
       else if( u.lm.cls == CLS_AMBIG )
          vf::count( "range-only cases: ambiguous input (crlf policy with lone LF)" );
       else if( u.lm.cls == CLS_PAIR )
-         vf::count( "exact-line cases: cr_crlf input containing CRLF" );
+         vf::count( "exact-line cases: cr_crlf input containing CRLF (both readings of the LF accepted)" );
       else
          vf::count( "exact-line cases: strictly unambiguous input" );
 
@@ -793,7 +814,7 @@ int main( int argc, char** argv )
    if( vf::args.replay ) return replay_case( vf::args.the_case );
 
    const size_t maxlen = vf::args.thorough() ? 8 : 6;
-   vf::st.note = std::string( "C19 " ) + ( vf::args.thorough() ? "thorough" : "quick" ) + ": all inputs over {a,LF,CR} of length 0.." + std::to_string( maxlen ) + " x 5 eol policies (lf cr crlf lf_crlf cr_crlf) x initial counters {(7,3,5),(7,1,1),default (0,1,1),(0,3,1),(0,1,5)} x eager/lazy x every k in 0..size x position sources {in.bump(k)+position(), parse_error of seq<bytes<k>,must<failure>>, parse_error after consuming the prefix with sor<eol,any>}; oracle: range + at()==begin+k on all cases, exact line vs independent splitter on unambiguous inputs (crlf policy with lone LF and positions inside a 2-byte ending: range only), eager==lazy; end_of_line/line_at with out-of-range at() run in forked children on a guard-page buffer; shard = unit index % nshards";
+   vf::st.note = std::string( "C19 " ) + ( vf::args.thorough() ? "thorough" : "quick" ) + ": all inputs over {a,LF,CR} of length 0.." + std::to_string( maxlen ) + " x 5 eol policies (lf cr crlf lf_crlf cr_crlf) x initial counters {(7,3,5),(7,1,1),default (0,1,1),(0,3,1),(0,1,5)} x eager/lazy x every k in 0..size x position sources {in.bump(k)+position(), parse_error of seq<bytes<k>,must<failure>>, parse_error after consuming the prefix with sor<eol,any>}; oracle: range + at()==begin+k on all cases, exact line vs independent splitter on unambiguous inputs (crlf policy with lone LF and positions inside a 2-byte ending: range only; cr_crlf inputs with CRLF: line begin accepted at or after the LF), same line under eager and lazy; end_of_line/line_at with out-of-range at() run in forked children on a guard-page buffer; shard = unit index % nshards";
 
    long unit_index = 0;
    bool stop = false;
